@@ -322,6 +322,7 @@ structure RealisesN (d : DFA Nat) (e : Nat) (rules : List CoreRule) : Prop where
     (d.st t').accepting = matchingAccs rules (w.map Sym.ch ++ [Sym.eoi])
   eoiNone : ∀ w t, reachN d e w = some t → (d.st t).eoi = none →
     matchingAccs rules (w.map Sym.ch ++ [Sym.eoi]) = []
+  deadEoi : ∀ w, reachN d e w = none → matchingAccs rules (w.map Sym.ch ++ [Sym.eoi]) = []
 
 theorem realisesN_of_ruleSet (rules : List CoreRule) (hre : ∀ r ∈ rules, regexPiecesOK r.re) (nfa : NFA)
     (h : buildNfa rules = .ok nfa) (d : DFA Nat) (hd : nfaToDfa nfa = some d) : RealisesN d 0 rules := by
@@ -341,6 +342,10 @@ theorem realisesN_of_ruleSet (rules : List CoreRule) (hre : ∀ r ∈ rules, reg
   · intro w t hr he
     have := ruleSet_lang rules hre nfa h d hd (w.map Sym.ch ++ [Sym.eoi])
     rw [reachSym_ch_eoi, hr, Option.bind_some, he] at this
+    exact this
+  · intro w hr
+    have := ruleSet_lang rules hre nfa h d hd (w.map Sym.ch ++ [Sym.eoi])
+    rw [reachSym_ch_eoi, hr, Option.bind_none] at this
     exact this
 
 /-! ## Transport along automata that agree on a block of states -/
@@ -407,6 +412,9 @@ theorem realisesN_agree {d d' : DFA Nat} (hT : TargetsInRange d) (hA : Agree d d
     have ht := reachN_lt d hT w e he t hr
     rw [(hA t ht).1.eoi] at hx
     exact hR.eoiNone w t hr hx
+  · intro w hr
+    rw [reachN_agree hT hA w e he] at hr
+    exact hR.deadEoi w hr
 
 theorem targets_agree {d d' : DFA Nat} (hT : TargetsInRange d) (hA : Agree d d') (hl : d'.length = d.length) :
     TargetsInRange d' := by
@@ -508,6 +516,11 @@ theorem addDfa_realises_right (d other : DFA Nat) (hT : TargetsInRange other) (h
       cases hx' : (other.st u).eoi with
       | none => exact hR.eoiNone w u hu hx'
       | some u' => rw [hx'] at hx; cases hx
+  · intro w hr
+    rw [key w] at hr
+    cases hu : reachN other 0 w with
+    | none => exact hR.deadEoi w hu
+    | some u => rw [hu] at hr; cases hr
 
 /-! ## `compile_rule_set`: how many right contexts it allocates -/
 
@@ -853,7 +866,7 @@ theorem realises_simplify (e0 : Nat) (hi : (d.st e0).initial = true) (rules : Li
   intro w
   rw [← hcfg, reach_cfg d entries d' entries' h hT w e0 he]
   cases hr : reachN d e0 w with
-  | none => exact hR.dead w hr
+  | none => exact ⟨hR.dead w hr, hR.deadEoi w hr⟩
   | some t =>
     have ht := reachN_lt d hT w e0 he t hr
     show Auto.acc d' (cfgOf d t) = _ ∧ _
